@@ -100,6 +100,18 @@ def run(ctx):
         s = rng.randrange(10 ** 6)
         srt = lambda x, t: np.array(sorted(x), dtype=float)         # B sees every batch sorted by its first feature
         full.append(P.two_runs("KdqTreeBatch", p, p, items, s, "Equal", feed_b=lambda d, x, t, srt=srt: d.update(srt(x, t)), pre_b=srt, extra={"order": "asc"}))
+    # HDDDM / CDBD on batches of tens of thousands of rows (the reference grows past 2^15, 2^16 rows while nothing drifts): histograms count every row
+    for fam in ("HDDDM", "CDBD"):
+        for i in range(2 if q else 6):
+            p = dict(P.default_params(fam, rng), detect_batch=3)
+            d = 1 if fam == "CDBD" else 2
+            c = [rng.randint(-5, 5) for _ in range(d)]
+            # values rise with the row position inside every batch (a time-ordered extract): rows that stand early differ from rows that stand late
+            items = [[[x + (40 * r) // n_ + rng.randint(0, 6) for x in c] for r in range(n_)] for n_ in [rng.randint(12000, 36000) for _ in range(4)]]
+            s = rng.randrange(10 ** 6)
+            order = ("perm", "desc")[i % 2]
+            pre = pre_of(order, s)
+            full.append(P.two_runs(fam, p, p, items, s, "Equal", feed_b=lambda d, x, t, pre=pre: d.update(pre(x, t)), pre_b=pre, restrict=lambda nums: nums, extra={"order": order}))
     # kdq-tree with a binding minimum cell size (cutpoint_proportion_lbound well above its tiny default, data on a scale of hundreds, deep trees):
     # the cell-size bound is a property of the FEATURES' ranges, whatever rows come first
     for i in range(9 if q else 30):
